@@ -281,7 +281,7 @@ prop(
     runs=[dict(harness="wsnet", driver="wsstore", quick=dict(cases=6), thorough=dict(cases=60, burst=600))],
     nontrivial=["offers-forwarded", "answer-forwarded", "ignored-foreign-owner", "second-peer-id-closes", "close-with-entries", "wburst", "scrape-nonzero"],
     level_text="Theorems (on the model refined in C08 / C09, for every reachable state): an announce that is not ignored yields, after the forwarded messages, exactly one announce reply addressed to the sender; a scrape exactly one scrape reply to the requester; every forwarded offer / answer is addressed to the connection owning the addressed stored peer of the same torrent, tagged with the sender's peer id; an announce under a second peer id for a torrent not stopped yields one error reply and ends the connection, whose peers all disappear; after a close processed in sending order no stored peer is owned by the closed connection. Two-channel model (requests / control, each FIFO, swarm worker free to pick): in sending order nothing remains; taking the close notice first left the entry on the pinned tree (negation witness, finding F11) and is harmless with the swarm worker's memory of closed connections (the repair): an announce of a connection already reported closed is dropped. Tie: tracker child process, socket_workers x swarm_workers in {1,2,3}^2, 3..6 WebSocket clients, announces with offers / answers, scrapes over torrents of different swarm workers, garbage messages, orderly and abrupt closes, bursts of pipelined announces followed by a TCP reset; every message each client receives is compared with model and reference.",
-    level_note="partial for the runtime part: glommio channel meshes and task scheduling, TCP and WebSocket framing are exercised only. F11 (a burst of announces overtaken by the close notice left peers of a dropped connection behind) was found by these runs and repaired; known finding: F14 (the error reply for a second peer id is dropped when the reader task ends the connection).",
+    level_note="partial for the runtime part: glommio channel meshes and task scheduling, TCP and WebSocket framing are exercised only. F11 (a burst of announces overtaken by the close notice left peers of a dropped connection behind) was found by these runs and repaired; F14 (the error reply for a second peer id was dropped when the reader task ended the connection) was found by these runs and repaired as well.",
     design_ref="§8 C17",
     assumptions=["a message is considered not sent if it has not arrived 150 ms after the last one (3 s at most per operation)"],
 )
@@ -303,7 +303,7 @@ prop(
     "C19",
     module="Aquatic.Props.C19",
     technique="Lean 4 proof about the supervising loop of run(), whose shape (spawn sites, handles pushed, poll period, join arms) is regenerated from the three lib.rs files on every run + fault injection into the real trackers (hook: a chosen worker panics / returns at its next loop iteration; a socket worker that cannot bind)",
-    runs=[dict(harness="supervise", driver="supervise", quick=dict(cases=7), thorough=dict(cases=40))],
+    runs=[dict(harness="supervise", driver="supervise", quick=dict(cases=24), thorough=dict(cases=96))],
     nontrivial=["mode-panic", "mode-return", "mode-bind"],
     level_text="Theorems over the regenerated shape of the three run() functions: every worker thread spawned in run() is pushed to the supervised handles (spawn sites = pushes, prometheus endpoint included); each of the three arms of the join (returned Ok, returned Err, panicked) returns an error; a pass over the handles finds nothing iff every worker is running, otherwise it yields an error naming a stopped worker, never Ok; the pass following a stop at any time t comes before t + poll period, hence run() returns within 5 s, well within 10 s. Tie: tracker child processes (UDP, HTTP, WebTorrent; 1-2 socket and swarm workers) in which the socket, swarm, swarm-cleaning-timer, cleaning, statistics or signal worker is made to panic or to return at its next loop iteration 0.8 s after start, or whose socket worker cannot bind: the parent measures when run() returns and with what.",
     level_note="partial: that a dead worker thread is what the handle reports - glommio propagating task panics to the executor thread, a swarm worker's dead request handler taking the socket worker down through the broken channel - is exercised by the fault injection, not proved. 25 fault kinds; the WebTorrent swarm worker has no loop to return from (panic only).",
